@@ -20,9 +20,12 @@
    validated numerically only by harness/c07.py on the actual entry points:
    effective degree <-> compact effective degree <-> EBCM (multinomial change
    of variables), prefmix_uncorrelated (2-D / dict-based code, not translated),
-   the heterogeneous pairwise, pair-based and individual-based reductions (2-D
-   and node-level systems, not translated), and the matching of the wrappers' initial conditions. *)
-From EoNV Require Import Prelude Vec VecP Aux Rhs Rhs7P.
+   and the matching of the wrappers' initial conditions.  The heterogeneous
+   pairwise, pair-based and individual-based regular-graph reductions are proved
+   in the second part of this file over the hand-written models of Model/Rhs2D.v
+   (tied to the code by point evaluation on every run), against the GENERATED
+   homogeneous mean-field / homogeneous pairwise right-hand sides. *)
+From EoNV Require Import Prelude Graph Vec VecP Aux Rhs Rhs7P Rhs2D Rhs2DP.
 
 (* ---- regular graphs: single degree class k, Phi o rhs_big = rhs_small o Phi ---- *)
 (* heterogeneous mean-field SIS on the invariant subspace {S_j = I_j = 0, j <> k}
@@ -128,3 +131,98 @@ Print Assumptions C07_ebcm_to_super_compact_partial.
 Print Assumptions C07_compact_to_super_compact_partial.
 Print Assumptions C07_nonvacuous_lump.
 Print Assumptions C07_nonvacuous_moments.
+
+
+(* ====================================================================== *)
+(* regular-graph reductions of the node-level and 2-D systems              *)
+(* (big systems: Model/Rhs2D.v; small systems: Gen/Rhs.v; proofs: Rhs2DP.v) *)
+(* ====================================================================== *)
+(* Setting: `ib_regularb G nodelist idx d` / `pb_regularb G nodelist idx d` (boolean, Proofs/Rhs2DP.v): every node of
+   nodelist has exactly d neighbours, each with an index inside the state vector; for the pair-based system also:
+   adjacency lists duplicate-free, idx inverts nodelist on neighbours, adjacency symmetric (simple undirected
+   d-regular graph).  Uniform rates tr == tau, rc == g.  Symmetric subspace: all X_i equal, all Y_i equal, and for
+   the pair-based system <X_i Y_j> = p, <X_i X_j> = q on every edge (`pbSIR_uniform`, `pbSIS_uniform`).
+   Each theorem has two parts: (1) the big right-hand side at a symmetric state is again symmetric (the subspace is
+   invariant), with the stated common values; (2) Phi o rhs_big = rhs_small o Phi, Phi the aggregation map that the
+   wrappers' outputs use (S = sum X_i, I = sum Y_i, [SI] = sum_i sum_{j ~ i} <X_i Y_j>, [SS] likewise), n = d.
+   The lift to curves is ODE uniqueness (cited). *)
+
+(* (a) individual-based  ->  homogeneous mean-field, n_over_N = d / N *)
+Theorem C07_lump_SIS_individual_based_regular : forall G nodelist idx tr rc d tau g y Y t,
+  ib_regularb G nodelist idx d = true -> (forall u v, tr u v == tau) -> (forall u, rc u == g) ->
+  (forall k, (k < nN nodelist)%nat -> vnth k Y == y) -> ~ Qnat (nN nodelist) == 0 ->
+  let D := dSIS_individual_based G nodelist idx tr rc Y t in
+  let small := dSIS_homogeneous_meanfield [sumn (nN nodelist) (fun k => 1 - vnth k Y); sumn (nN nodelist) (fun k => vnth k Y)]
+                                          t (Qnat d / Qnat (nN nodelist)) tau g in
+  (forall k, (k < nN nodelist)%nat -> vnth k D == tau * Qnat d * (1 - y) * y - g * y) /\
+  veq [sumn (nN nodelist) (fun k => - vnth k D); sumn (nN nodelist) (fun k => vnth k D)] small.
+Proof. exact ibSIS_lump. Qed.
+Theorem C07_lump_SIR_individual_based_regular : forall G nodelist idx tr rc d tau g x y V t,
+  ib_regularb G nodelist idx d = true -> (forall u v, tr u v == tau) -> (forall u, rc u == g) ->
+  (forall k, (k < nN nodelist)%nat -> vnth k V == x /\ vnth (nN nodelist + k) V == y) -> ~ Qnat (nN nodelist) == 0 ->
+  let D := dSIR_individual_based G nodelist idx tr rc V t in
+  let small := dSIR_homogeneous_meanfield [sumn (nN nodelist) (fun k => vnth k V); sumn (nN nodelist) (fun k => vnth (nN nodelist + k) V)]
+                                          t (Qnat d / Qnat (nN nodelist)) tau g in
+  (forall k, (k < nN nodelist)%nat ->
+     vnth k D == - (tau * Qnat d * x * y) /\ vnth (nN nodelist + k) D == tau * Qnat d * x * y - g * y) /\
+  veq [sumn (nN nodelist) (fun k => vnth k D); sumn (nN nodelist) (fun k => vnth (nN nodelist + k) D)] small.
+Proof. exact ibSIR_lump. Qed.
+
+(* (b) pair-based  ->  homogeneous pairwise, n = d.  x <> 0 (resp. 1 - y <> 0): the code replaces 1/X_i by 0 at X_i = 0 *)
+Theorem C07_lump_SIR_pair_based_regular : forall G nodelist idx tr rc d tau g x y p q V t,
+  pb_regularb G nodelist idx d = true -> (forall u v, tr u v == tau) -> (forall u, rc u == g) ->
+  pbSIR_uniform G nodelist V x y p q -> ~ x == 0 -> ~ Qnat (nN nodelist) == 0 -> ~ Qnat d == 0 ->
+  let D := dSIR_pair_based G nodelist idx tr rc V t in
+  let Phi := fun W => [sumn (nN nodelist) (prX W); sumn (nN nodelist) (prY nodelist W);
+                       pb_pairs G nodelist idx (prXY nodelist W); pb_pairs G nodelist idx (prXX nodelist W)] in
+  pbSIR_uniform G nodelist D (- (tau * Qnat d * p)) (tau * Qnat d * p - g * y)
+                (- (tau + g) * p + (Qnat d - 1) * tau * (q - p) * p * inv0 x) (- (2 * (Qnat d - 1) * tau * p * q * inv0 x)) /\
+  veq (Phi D) (dSIR_homogeneous_pairwise (Phi V) t (Qnat d) tau g).
+Proof. exact pbSIR_lump. Qed.
+(* SIS: the homogeneous pairwise state is (S, SI, SS) with S = sum (1 - Y_i), so dPhi (D) = (- sum dY_i, [dXY], [dXX]) *)
+Theorem C07_lump_SIS_pair_based_regular : forall G nodelist idx tr rc d tau g y p q V t,
+  pb_regularb G nodelist idx d = true -> (forall u v, tr u v == tau) -> (forall u, rc u == g) ->
+  pbSIS_uniform G nodelist V y p q -> ~ 1 - y == 0 -> ~ Qnat (nN nodelist) == 0 -> ~ Qnat d == 0 ->
+  let D := dSIS_pair_based G nodelist idx tr rc V t in
+  pbSIS_uniform G nodelist D (tau * Qnat d * p - g * y)
+                (- (tau + g) * p + g * (1 - 2 * p - q) + (Qnat d - 1) * tau * (q - p) * p * inv0 (1 - y))
+                (2 * g * p - 2 * (Qnat d - 1) * tau * p * q * inv0 (1 - y)) /\
+  veq [- sumn (nN nodelist) (psY D); pb_pairs G nodelist idx (psXY nodelist D); pb_pairs G nodelist idx (psXX nodelist D)]
+      (dSIS_homogeneous_pairwise [sumn (nN nodelist) (psX V); pb_pairs G nodelist idx (psXY nodelist V); pb_pairs G nodelist idx (psXX nodelist V)]
+                                 t (Qnat (nN nodelist)) (Qnat d) tau g).
+Proof. exact pbSIS_lump. Qed.
+
+(* (c) heterogeneous pairwise with the single degree class Ks = [k] (what *_heterogeneous_pairwise_from_graph builds on
+   a k-regular graph)  =  homogeneous pairwise with n = k, up to the order of the coordinates; together with
+   C07_lump_SIS/SIR_compact_pairwise_regular above this also identifies it with compact pairwise on that class.
+   k <> 0, S <> 0: no guard (kxSk[kxSk==0] = 1, tmpSk[tmpSk==0] = 1) fires. *)
+Theorem C07_lump_SIS_heterogeneous_pairwise_regular : forall S SS SI N k tau gamma t,
+  ~ k == 0 -> ~ S == 0 ->
+  let small := dSIS_homogeneous_pairwise [S; SI; SS] t N k tau gamma in
+  veq (dSIS_heterogeneous_pairwise [S; SS; SI] [N] [N * k] tau gamma [k] t) [vnth 0 small; vnth 2 small; vnth 1 small].
+Proof. exact hpSIS_single_class. Qed.
+Theorem C07_lump_SIR_heterogeneous_pairwise_regular : forall S I SS SI k tau gamma t,
+  ~ k == 0 -> ~ S == 0 ->
+  let small := dSIR_homogeneous_pairwise [S; I; SI; SS] t k tau gamma in
+  veq (dSIR_heterogeneous_pairwise [S; I; SS; SI] tau gamma [k] t) [vnth 0 small; vnth 1 small; vnth 3 small; vnth 2 small].
+Proof. exact hpSIR_single_class. Qed.
+
+(* ---- non-vacuity: the triangle is 2-regular, carries symmetric states, and the field there is not zero ---- *)
+Example C07_nonvacuous_regular_graph :
+  pb_regularb tri_graph tri_nodes tri_idx 2 = true /\ ib_regularb tri_graph tri_nodes tri_idx 2 = true /\
+  pbSIR_uniform tri_graph tri_nodes (tri_V (1 # 2) (1 # 4) (1 # 8) (1 # 4)) (1 # 2) (1 # 4) (1 # 8) (1 # 4) /\
+  pbSIS_uniform tri_graph tri_nodes (tri_W (1 # 4) (1 # 8) (1 # 2)) (1 # 4) (1 # 8) (1 # 2) /\
+  ~ vnth 0 (dSIR_pair_based tri_graph tri_nodes tri_idx (fun _ _ => 1) (fun _ => 1) (tri_V (1 # 2) (1 # 4) (1 # 8) (1 # 4)) 0) == 0 /\
+  ~ vnth 8 (dSIR_pair_based tri_graph tri_nodes tri_idx (fun _ _ => 1) (fun _ => 1) (tri_V (1 # 2) (1 # 4) (1 # 8) (1 # 4)) 0) == 0.
+Proof.
+  split; [apply tri_regular|]. split; [apply tri_regular|]. split; [apply tri_uniform_SIR|]. split; [apply tri_uniform_SIS|].
+  split; intro H; vm_compute in H; discriminate.
+Qed.
+
+Print Assumptions C07_lump_SIS_individual_based_regular.
+Print Assumptions C07_lump_SIR_individual_based_regular.
+Print Assumptions C07_lump_SIR_pair_based_regular.
+Print Assumptions C07_lump_SIS_pair_based_regular.
+Print Assumptions C07_lump_SIS_heterogeneous_pairwise_regular.
+Print Assumptions C07_lump_SIR_heterogeneous_pairwise_regular.
+Print Assumptions C07_nonvacuous_regular_graph.
